@@ -29,7 +29,8 @@ def one(src, mode=0, **kw):
 SEPARATORS = ['\n', '\n\n', '\n\n\n', '\n.x\n', '\n\n.x\n', '\n.x\n\n', '\n\n.x\n\n', '\n\n\n.x\n', '\n.x\n.y\n', '\n\n.#i1\n\n']
 FOLLOWERS = ['- b', '* b', '. b', '-- b', 'b:: c', 'text', '  ind', '  - ind item', '> quote', '``\ncode\n``', '..\ndiv\n..',
              '""\nq\n""', '<div>h</div>', '<!-- c -->', '/*\ncm\n*/', '# Header', '{--}', '.cls\ntext', '\\- esc', '\\.x',
-             '<div>h</div>\n\nafter', '<!-- c -->\n\n  ind after', '/*\ncm\n*/\n\ntext after']
+             '<div>h</div>\n\nafter', '<!-- c -->\n\n  ind after', '/*\ncm\n*/\n\ntext after',
+             '.+container\n> - n\n- m', '.+container\n  - n\n  - n2\n- m', '.+container\n..\n- n\n..\n- m', '.+container\n> . n\n\n- m']
 FIRSTS = ['- a', '* a\n** a2', '. a', 'a:: b', '- a\n  cont', 't::\n  dd']
 
 
